@@ -93,6 +93,8 @@ SegmentationRef == Intended.err = "none" /\ Intended.out = RefSeg(fam, str)
 ConcatLossless == IsConcat(fam, str) => Flatten(Intended.out) = str /\ walk.path = <<>>
 CodesOnly == \A i \in 1..Len(walk.out) : IsCode(fam, walk.out[i])
 PathIsPrefix == walk.path = <<>> \/ fam.kind = "id2" \/ IsProperPrefix(walk.path, fam.codes)
+\* NOT expected to hold while Dev is non-empty
+AsCodedSegmentation == AsCoded.err = "none" /\ AsCoded.out = RefSeg(fam, str)
 DevLocal == AsCoded # Intended => fam.kind = "id2" /\ Len(str) % 2 = 1
 
 Emit == PrintT("@@" \o ToJson([fam |-> fam.name, s |-> str, i |-> Intended, c |-> AsCoded]))
